@@ -149,6 +149,22 @@ def run(tier):
             v.violation("c18:differs-from-calendar", "resolved (month, day) is not the calendar's answer", case)
         if len(samples) < 5 and i % 200003 == 7:
             samples.append(case)
+    # ---- the day the processors APPLY: the same cases of 2000..2049 as in-memory zones through both processors
+    fapply = work / "apply.bin"
+    n_apply = 0
+    with open(fapply, "wb") as f:
+        for y, m, dow, dom, on in cases:
+            if 2000 <= y < 2050:
+                o = oracle(y, m, dow, dom)
+                if o is not None and o.year == y and not (o.month == 1 and o.day == 1) and not (o.month == 12 and o.day == 31):
+                    f.write(struct.pack("<hBBbBB", y, m, dow, dom, o.month, o.day))
+                    n_apply += 1
+    NSH = 16
+    ra = run_shards(exe, [["--mode", "c18apply", "--in", fapply, "--shard", "%d/%d" % (i, NSH)] for i in range(NSH)], san="rec", timeout=1800)
+    v.absorb(ra, "c18apply")
+    applied = ra.counters.get("c18.applied_cases", 0)
+    if applied != 2 * n_apply:
+        v.inconclusive_because("the processors were asked %d of %d applied-day cases" % (applied, 2 * n_apply))
     # ---- the same expressions in the UNTIL column of a Zone line: there the year is known, the compiler resolves the day itself
     #      (Transformer._create_zones_with_until_day) and must reject a day that falls into another year
     until_cases = until_kept = until_rejected = 0
@@ -205,13 +221,16 @@ def run(tier):
                 "every admitted (month, weekday, day) x every year 1873..2126 is resolved by the C++ calcStartDayOfMonth (ASan+UBSan) "
                 "and the Python calc_day_of_month and compared with a datetime-based calendar oracle (expressions naming a day the "
                 "month does not have are outside zic's input language and skipped: %d). distinct = distinct (month, weekday, day) "
-                "expressions. %d (ON, month) combinations were rejected by the compiler. The same strings in the UNTIL column of a Zone line "
+                "expressions. For the years 2000..2049 every case is also built as an in-memory one-era zone (switch to +1:00 on the expression at 12:00, "
+                "back half a year later) and asked through BasicZoneProcessor and ExtendedZoneProcessor: DST must begin exactly at 12:00 of the calendar's "
+                "(month, day), i.e. the resolved month is used as well as the day. %d (ON, month) combinations were rejected by the compiler. The same strings in the UNTIL column of a Zone line "
                 "(months 1,2,3,6,11,12 x years 2000..2028) go through the real Transformer._create_zones_with_until_day: kept zones must carry the "
                 "calendar's (month, day), days that fall into another year must be rejected." % (skipped_invalid, rejected),
         "samples": samples or [{"admitted": len(admitted)}],
         "admitted_expressions": len(admitted),
         "rejected_expressions": rejected,
         "cross_year_cases": spill,
+        "applied_day_cases": applied,
         "until_day_cases": until_cases, "until_day_kept": until_kept, "until_day_rejected": until_rejected,
         "exhaustive": True,
     })
